@@ -26,9 +26,10 @@ pub fn configs_c02(tier: Tier) -> Vec<Box<dyn Config>> {
     let q = tier == Tier::Quick;
     let sse2 = super::width() == 16;
     let mut v: Vec<Box<dyn Config>> = Vec::new();
-    let u = if q { 4 } else { 6 };
+    let tiny = std::env::var("HBMC_TINY").is_ok(); // interpreter-sized spaces (Miri executor)
+    let u = if tiny { 2 } else if q { 4 } else { 6 };
     // universes large enough to pass a group (and the small-table minima) for one-byte elements
-    let ubig = if sse2 { if q { 15 } else { 17 } } else { if q { 8 } else { 10 } };
+    let ubig = if tiny { 3 } else if sse2 { if q { 15 } else { 17 } } else { if q { 8 } else { 10 } };
     all_colls::<Z0>(&mut v, Plan::Zero, 1, tier);
     all_colls::<S1>(&mut v, Plan::Zero, u, tier);
     v.push(lay::<S1>(Coll::Set, Plan::Seq, ubig, tier));
@@ -44,6 +45,9 @@ pub fn configs_c02(tier: Tier) -> Vec<Box<dyn Config>> {
     all_colls::<D200>(&mut v, Plan::Seq, u, tier);
     all_colls::<A32>(&mut v, Plan::Max, u, tier);
     all_colls::<A64>(&mut v, Plan::Zero, u, tier);
+    if tiny {
+        return v;
+    }
     // the HashMap history space with all memory monitors (tracked + plain flavours)
     let mut c = MapCfg::new(Plan::Zero, if q { 6 } else { 11 });
     c.max_buckets = if sse2 { 64 } else { 32 };
